@@ -81,6 +81,7 @@ class SpyCtl:
         self.state = None
         self.quiet_ops = ()
         self.executor_like = inner_cls is pathio.AsyncPathIO
+        self.close_returns = False  # TRUE: close() returns a true value (a backend is free to)
         self.short_reads = 0  # > 0: read() hands out at most that many bytes a call (what a file-like object is free to do)
 
     def vpath(self, p):
@@ -293,7 +294,7 @@ class SpyFS(pathio.AbstractPathIO):
             r = await self.inner.close(file)
             if h is not None:
                 h.state = "closed"
-            return r
+            return True if self.ctl.close_returns else r     # (AbstractPathIO.close specifies no return value)
 
         try:
             return await self._call("close", h.path if h else None, do, info={"h": h.hid if h else 0})
